@@ -148,7 +148,7 @@ def parseCallNames (s : String) : Array (Array String) :=
     | [_, _, _, _, consts, _] => ((splitOnNE consts ",").map callNameOf).toArray
     | _ => #[]).toArray
 
-def showNode (u : Abort.Node) : String := s!"{u.1}:{u.2}"
+def showNode (u : Abort.Node) : String := s!"{u.1}:{u.2.pc}"
 
 def abortAnswer (P : Prog) (callNames : Array (Array String)) : String :=
   let names := P.map (·.name)
